@@ -35,6 +35,8 @@ _INSTALLED = {"done": False}
 TOL32 = (2e-4, 1e-5)  # (rtol, atol): float32 pipelines (eps 6e-8, <= ~100 ops, exp/log round trip), DESIGN §1.2
 TOL64 = (1e-6, 1e-6)  # float64 inputs; atol covers leaspy's float32 constant 1/2 log(2 pi) (abs err 3e-8)
 BIG32 = 1e30  # float32 results beyond this magnitude overflow legitimately: not judged
+POW_UNDERFLOW = 705.0  # |log| of the smallest normal / largest float64 is 708.4 / 709.8
+KEY_UNDERFLOW = "weibull/log-hazard-lost-when-hazard-leaves-float64-range"
 
 
 class DensityPostBroken(Exception):
@@ -196,13 +198,10 @@ def _weibull_inputs(cls, x, nu, rho, xi, tau, _ARGS, _KWARGS=None):
     shifts = extra[0] if (with_sources and extra) else None
     xv = _val(x)
     w = getattr(x, "weight", None)
-    terms = None
-    if w is not None:
-        terms = ref.weibull_terms(_np(xv), _np(w) != 0, _np(nu), _np(rho), _np(xi), _np(tau), None if shifts is None else _np(shifts))
-    else:
-        terms = ref.weibull_terms(_np(xv), False, _np(nu), _np(rho), _np(xi), _np(tau), None if shifts is None else _np(shifts))
+    observed = (_np(w) != 0) if w is not None else False  # the event's "weight" is the observed/censored flag
+    terms = ref.weibull_terms(_np(xv), observed, _np(nu), _np(rho), _np(xi), _np(tau), None if shifts is None else _np(shifts))
+    # event times are float64 by construction of Dataset; parameters may be float32 -> float32 tolerance class
     tol = tol_of(xv, nu, rho, xi, tau, *([shifts] if shifts is not None else []))
-    # the event time itself carries the time axis: float64 by construction of Dataset; parameters may be float32
     return xv, w, shifts, terms, tol
 
 
@@ -248,6 +247,12 @@ def weibull_log_hazard_is_textbook(cls, x, nu, rho, xi, tau, _ARGS, result):
         return _fail("weibull/censored-contributes-hazard", "compute_log_likelihood_hazard: a censored individual gets a non-zero log-hazard term",
                      **_first(cens & (got != 0), ("got", got), ("t", _np(xv)), ("tau", _np(tau))))
     want = np.where(T["observed"] & T["after"], T["log_h"], np.nan)
+    bad, _ = bad_entries(got, want, tol[0], tol[1])
+    under = bad & (np.abs(T["log_pow"]) > POW_UNDERFLOW)
+    if under.any():
+        return _fail(KEY_UNDERFLOW, "compute_log_likelihood_hazard: the hazard under/overflows in float64 and its log is reported as 0 (or log of a "
+                     "denormal, or inf) instead of the finite log-hazard", **_first(under, ("got", got), ("want", want), ("t", _np(xv)), ("tau", _np(tau)),
+                                                                           ("xi", _np(xi)), ("nu", _np(nu)), ("rho", _np(rho))))
     return _check_entries("weibull/log-hazard-mismatch", "weibull.compute_log_likelihood_hazard", result, want, tol,
                           t=_np(xv), tau=_np(tau), xi=_np(xi), nu=_np(nu), rho=_np(rho))
 
@@ -273,6 +278,9 @@ def weibull_nll_is_textbook_right_censored_density(cls, x, nu, rho, xi, tau, _AR
                      **_first(bad_c, ("got", got), ("want_neg_log_S", T["neg_log_S"]), ("t", _np(xv)), ("tau", _np(tau))))
     bad_o, _ = bad_entries(got, T["nll"], rtol, atol, obs_after)
     if bad_o.any():
+        if (np.abs(T["log_pow"][bad_o]) > POW_UNDERFLOW).all():
+            return _fail(KEY_UNDERFLOW, "weibull._nll: the hazard underflows in float64 and the log-hazard of an observed event is lost",
+                         **_first(bad_o, ("got", got), ("want", T["nll"]), ("t", _np(xv)), ("tau", _np(tau)), ("rho", _np(rho))))
         only_surv, _ = bad_entries(got, T["neg_log_S"], rtol, atol, obs_after)
         if not (only_surv & bad_o).any() and np.abs(T["log_h"][bad_o]).max() > 10 * atol:
             return _fail("weibull/observed-missing-log-hazard", "weibull._nll: an observed event contributes only -log S(t), the log-hazard is missing",
